@@ -36,7 +36,7 @@ ASSUMPTIONS = [
     "no statistical test is used: laws are compared through the parameters of the recorded sampler calls",
 ]
 TIMEOUT = {"quick": 40, "thorough": 120}
-DEADLINE = {"quick": 100, "thorough": 1200}
+DEADLINE = {"quick": 100, "thorough": 1000}
 MIN_DECIDING = {"quick": 40, "thorough": 300}
 NCASES = {"quick": 160, "thorough": 2500}
 
